@@ -37,15 +37,22 @@ CLAIM = dict(
     technique="exhaustive product over finite frame/date/state/configuration alphabets on the real code vs. independent reference model",
 )
 RULE = (
-    "cases = (EOP configuration, date, state, ordered frame triple A,B,C with A!=B, B!=C) for identities/path independence; "
+    "cases = (EOP configuration, date, state, ordered frame triple A,B,C with A!=B, B!=C) for identities/path independence, "
+    "each unit ending with a repeat pass (every first/second leg re-executed: bit-identical; reference objects of the frames "
+    "unchanged); (configuration, date, frame kind, reset?, request order) histories that bind one frame name to definitions "
+    "0,1,0 in turn, oracle = freshly named twin frame; "
     "(configuration, date, ordered built-in pair) for matrix structure; (configuration, date, state, frame) for the "
     "finite-difference kinematics; (configuration, date, edge) for the Earth-rotation reference. Every case performs real "
     "conversions between distinct frames, hence is non-trivial; cases are distinct by construction (distinct tuples)"
 )
 BOUNDS = {
-    "quick": "17 frames, all 17x16x16 triples; 5 dates (real EOP) / 2 (zero EOP) / 1+1 (missing EOP, pass and warning); 3 states; "
-    "error policy: Date construction must raise",
-    "thorough": "17 frames, all triples; 12 dates x 4 configurations; 4 states (LEO, GEO, ground point, HEO perigee)",
+    "quick": "21 frames (10 built-in, 2 stations + 1 equatorial station, Kepler-orbit frames None/QSW/TNW, plain-StateVector frames "
+    "None/QSW/TNW, Moon, Sun); LEO state: all 21x20x20 triples + repeat pass; GEO and ground point: all ordered pairs (round trip and "
+    "as tail of a triple) + finite differences; 5 dates (real EOP) / 2 (zero) / 1+1 (missing: pass, warning); reference edges and "
+    "matrix structure on 16 / 5 / 3 / 3 dates (incl. |sin Omega| ~ 1 before, inside and after 1992-02-27..1997-02-27); re-binding "
+    "histories: 7 frame kinds x reset/no reset x 2 request orders x 3 bindings on 1 date (real) + 1 (zero); error policy: Date must raise",
+    "thorough": "21 frames, all triples + repeat pass for 4 states (LEO, GEO, ground point, HEO perigee) x 16 dates x 4 configurations; "
+    "histories on 4 + 2 + 1 + 1 dates",
 }
 ASSUMPTIONS = [
     "EOP selection rule = record of the UTC day of the instant (library's SimpleEopDatabase: 'without interpolation'); "
@@ -53,8 +60,10 @@ ASSUMPTIONS = [
     "Julian-date quantisation of the library (40 us) bounds the sidereal-angle comparison at omega x 50 us = 3.6e-9 rad",
     "blank LOD in IERS prediction rows: only |LOD| <= 5 ms is required of the rate (the fill rule is a data policy)",
     "frames of date (MOD, TOD, TEME, ...) are treated as non-rotating by the velocity map, as in every textbook reduction: the "
-    "precession+nutation rate (<= 1.5e-11 rad/s, 0.1-0.6 mm/s) is allowed for in the finite-difference tolerance; the property "
+    "precession+nutation rate (0.8-2.5e-11 rad/s computed per date from the reference model, 0.1-0.7 mm/s) is allowed for in the finite-difference tolerance; the property "
     "names the Earth-rotation coupling only",
+    "frames attached to a plain (non-propagating) StateVector are defined at that state's date only: they take part in all "
+    "algebraic checks but not in the finite-difference check (counted as excluded)",
     "kinematic clause: frames of the property's quantifier (built-in, stations, orbit-attached); Moon/Sun frames excluded "
     "from the finite-difference check (their velocity is documented as a crude 1-day numerical difference) and counted",
 ]
@@ -108,7 +117,6 @@ THOROUGH_HISTORY = {"real": [0, 5, 7, 11], "zero": [8, 12], "pass": [7], "warnin
 # finite-difference check reports as `kinematics/orbit-lof`.  Set to False only if the property is re-read as
 # "orbit-attached frames have instantaneously frozen axes"; the cases are then counted as excluded.
 LOF_KINEMATICS_IN_SCOPE = True
-SLOW_RATE = 1.5e-11  # rad/s, precession + nutation rate of the frames of date (neglected by the velocity map)
 MU_S = 50e-6  # time resolution of the Earth-rotation code (DESIGN.md §3, property texts: "50 us")
 
 _G = {}
@@ -258,6 +266,8 @@ def get_ctx(dt):
     cur["refs"] = {k: (obj, np.array(obj, dtype=float).copy()) for k, obj in refs.items()}
     kind = _G["kind"]
     cur["ref"] = er.EarthRotation(mjd, sod, ref_eop(kind, mjd), _nut_table())
+    # rate of the axes "of date" at this instant (neglected by the velocity map, see fd_plan); 1e-3 for its own differencing
+    cur["slow_rate"] = 1.001 * sum(er.slow_rates(cur["ref"].T_tt, _nut_table()))  # |precession| + |nutation| + |d EqE/dt|
     _G["ctx"] = cur
     return cur
 
@@ -571,7 +581,9 @@ def fd_plan(ctx, si, B):
     stencil (sum |c_k| = 1.5 / h) turns into velocity noise.  round-off: 8 eps L x 1.5 / h.
     slow: frames "of date" (MOD, TOD, TEME and everything built on them) are treated by the library - as by every
     textbook reduction - as non-rotating: the precession (7.7e-12 rad/s) + nutation (< 4e-12 rad/s) rate is not part
-    of the velocity map; the property names the Earth-rotation coupling only.  Allowance 1.5e-11 rad/s x r.
+    of the velocity map; the property names the Earth-rotation coupling only.  Allowance = (|precession rate| +
+    |nutation rate| + |rate of the equation of the equinoxes|) at this date, from the reference model (0.8 .. 2.5e-11 rad/s), x r
+    (triangle inequality over the edges MOD, TOD, TEME/PEF).
     The stencil stays inside one UTC day (EOP records are per-day constants: the position map jumps at midnight).
     """
     s = ctx["states"][si]
@@ -587,7 +599,7 @@ def fd_plan(ctx, si, B):
         trunc = 2.0 * h**4 / 30.0 * L * W**5
         floor = (7.2921e-5 * r_state * MU_S * 1.5 / h) if crossing else 0.0
         ro = 8 * EPS * max(L, 1.0) * 1.5 / h
-        slow = SLOW_RATE * r_state
+        slow = ctx["slow_rate"] * r_state
         tol = trunc + floor + ro + slow + 1e-9
         if best is None or tol < best[1]:
             best = (h, tol)
